@@ -237,12 +237,26 @@ impl EncCase {
         self.to_json().to_string()
     }
 
+    /// The four setters are applied in an order derived from the case (all 24 orders occur), so
+    /// that a setter clobbering what another one configured cannot hide behind one fixed call
+    /// sequence.  The order is a pure function of the case (replayable).
     pub fn builder(&self) -> DataMatrixBuilder {
-        DataMatrixBuilder::new()
-            .with_symbol_list(mask_to_list(self.list))
-            .with_encodation_types(modes_to_flags(self.modes))
-            .with_macros(self.macros)
-            .with_fnc1_start(self.fnc1)
+        let mut order = [0u8, 1, 2, 3];
+        let mut h = crate::core::fnv64(&self.data) ^ self.list ^ (self.modes as u64) << 48 ^ (self.macros as u64) << 57 ^ (self.fnc1 as u64) << 58;
+        for i in (1..4).rev() {
+            h = crate::core::splitmix(h);
+            order.swap(i, (h % (i as u64 + 1)) as usize);
+        }
+        let mut b = DataMatrixBuilder::new();
+        for k in order {
+            b = match k {
+                0 => b.with_symbol_list(mask_to_list(self.list)),
+                1 => b.with_encodation_types(modes_to_flags(self.modes)),
+                2 => b.with_macros(self.macros),
+                _ => b.with_fnc1_start(self.fnc1),
+            };
+        }
+        b
     }
 
     /// Run the encoder through the builder API.
